@@ -246,6 +246,20 @@ def gen_exp(fmt, cls, budget, rng, thorough):
         for k in ks:
             c = (k * ln2) if cls == "near_kln2" else ((2 * k + 1) * ln2 / 2)
             out += neighbours(pat_of(c, fmt), fmt, 3)
+    elif cls == "interior":
+        # x = (k + f) * ln2 with k over the WHOLE range and f at every scale around the decision point 1/2 (and uniform):
+        # an error of the quotient that grows with |k| moves the switch of k by a fraction of ln2, not by a few ulps
+        ks = list(range(-kmax, kmax + 1))
+        per = 12
+        if len(ks) * per > budget:
+            n = max(8, budget // per)
+            big = [k for k in ks if abs(k) > kmax // 2]
+            ks = sorted(set(rng.sample(big, min(len(big), n // 2)) + rng.sample(ks, min(len(ks), n - n // 2))))
+        for k in ks:
+            fs = [Fraction(1, 2) + s * Fraction(1, 1 << j) for j in rng.sample(range(2, 11), 4) for s in (1, -1)]
+            fs += [Fraction(rng.randrange(1, 1 << 20), 1 << 20) for _ in range(4)]
+            for f in fs:
+                out.append(pat_of((k + f) * ln2, fmt))
     elif cls == "random":
         # log-uniform: uniform over the bit patterns below log(largest), both signs
         for _ in range(budget):
@@ -312,6 +326,19 @@ def gen_trig(fmt, cls, budget, rng, thorough):
                     out.append(pt | sb)
                 if rng.random() < 0.2:
                     out += neighbours(pt, fmt, 1)
+    elif cls == "interior":
+        # x = (k + f) * pi/2: k log-uniform over every magnitude the domain admits, f at every scale around 1/2 and uniform
+        kbits = max(2, bits.EMAX[fmt] - TRIG_J[fmt] - 1)
+        for _ in range(max(8, budget // 10)):
+            b = rng.randint(1, kbits)
+            k = rng.randrange(1 << (b - 1), 1 << b)
+            fs = [Fraction(1, 2) + s * Fraction(1, 1 << j) for j in rng.sample(range(2, 11), 3) for s in (1, -1)]
+            fs += [Fraction(rng.randrange(1, 1 << 20), 1 << 20) for _ in range(4)]
+            sg = sb if rng.random() < 0.4 else 0
+            for f in fs:
+                pt = pat_of((k + f) * pi / 2, fmt)
+                if pt <= top:
+                    out.append(pt | sg)
     elif cls == "switch":
         c = pat_of(pi / 4, fmt)
         offs = set(range(-24, 25))
@@ -455,8 +482,8 @@ def export_shapes(chk):
     chk.add_mc("MC_ArgReduce_shapes", r)
     shapes = [v[1] for v in tlaval.printed_values(r.out, "S")]
     shapes.sort(key=lambda d: json.dumps(d, sort_keys=True))
-    if len(shapes) != 30:
-        raise tlc.MachineryError("expected 30 shape classes, TLC printed %d" % len(shapes))
+    if len(shapes) != 34:
+        raise tlc.MachineryError("expected 34 shape classes, TLC printed %d" % len(shapes))
     return shapes
 
 
@@ -477,10 +504,10 @@ def run_u1(chk):
 
 BUDGET = {
     # per (function, class): events per float32/float64 format
-    "quick": {"exp": dict(near_kln2=1850, near_khalfln2=1850, random=1500, tiny=80, edge=300, huge=40),
-              "trig": dict(near_kpio2=1400, convergent=900, switch=400, random=1200, tiny=80, edge=100, huge=40)},
-    "thorough": {"exp": dict(near_kln2=10 ** 6, near_khalfln2=10 ** 6, random=190000, tiny=80, edge=300, huge=64),
-                 "trig": dict(near_kpio2=160000, convergent=10 ** 6, switch=400, random=150000, tiny=80, edge=100, huge=48)},
+    "quick": {"exp": dict(near_kln2=1850, near_khalfln2=1850, random=1500, interior=4000, tiny=80, edge=300, huge=40),
+              "trig": dict(near_kpio2=1400, convergent=900, switch=400, random=1200, interior=1000, tiny=80, edge=100, huge=40)},
+    "thorough": {"exp": dict(near_kln2=10 ** 6, near_khalfln2=10 ** 6, random=190000, interior=60000, tiny=80, edge=300, huge=64),
+                 "trig": dict(near_kpio2=160000, convergent=10 ** 6, switch=400, random=150000, interior=60000, tiny=80, edge=100, huge=48)},
 }
 
 
